@@ -34,7 +34,7 @@ ASSUMPTIONS = [
     'Sharpe/Sortino compared only when their denominator is well conditioned; Sortino only with >= 2 negative returns',
     'float tolerance 1e-9 (drawdowns absolute, other statistics relative)',
 ]
-SHAPES = ['walk', 'up', 'down', 'flat', 'vee', 'spike', 'walk_small']
+SHAPES = ['walk', 'up', 'down', 'flat', 'vee', 'spike', 'walk_small', 'nearly_flat']
 
 
 def build_curve(seed, n, shape, e0):
@@ -51,6 +51,10 @@ def build_curve(seed, n, shape, e0):
             k = 1 - rnd.uniform(0.0001, .03)
         elif shape == 'flat':
             k = 1.0 if rnd.random() < .6 else 1 + rnd.uniform(-.05, .05)
+        elif shape == 'nearly_flat':
+            # a cash account credited a few cents now and then: returns of the order of 1e-8
+            e.append(float('%.10g' % (e[-1] + (0.05 if rnd.random() < 0.05 else 0.0))))
+            continue
         elif shape == 'vee':
             k = 1 - rnd.uniform(0, .03) if i < n // 2 else 1 + rnd.uniform(0, .04)
         else:
@@ -173,7 +177,7 @@ def run_case(case):
                 raise Violation('reported monthly return %s = %r, expected %r' % (k, ma[k], v))
         # CAGR, Sharpe, Sortino
         cagr = o['cum_last'] ** (float(P) / n) - 1
-        if not close(float(s['cagr']), cagr, 1e-9, 1e-6):
+        if not close(float(s['cagr']), cagr, 1e-9, 1.0):         # CAGR is (growth factor) - 1: noise is relative to 1 + CAGR
             raise Violation('CAGR %r, final cumulative return ^ (%s/%d) - 1 = %r' % (float(s['cagr']), P, n, cagr))
         r = o['r']
         mx = max(abs(x) for x in r)
@@ -230,16 +234,32 @@ def run_case(case):
         # the benchmark section of the JSON export is computed from the benchmark curve, not from the strategy
         if case.get('benchmark'):
             be = case['benchmark']
-            bo = oracle(be, idx)
-            beq = pd.DataFrame({'Equity': list(be)}, index=list(idx))
+            bidx = list(idx)
+            if case.get('benchmark_lead'):
+                # the benchmark curve starts earlier than the strategy's (its own dates, its own statistics)
+                d = idx[0]
+                lead = []
+                while len(lead) < case['benchmark_lead']:
+                    d -= D.timedelta(days=1)
+                    if d.weekday() < 5:
+                        lead.append(d)
+                bidx = lead[::-1] + list(idx)
+                be = [be[0] * (1 + 0.001 * ((k * 7) % 5 - 2)) for k in range(len(lead))] + list(be)
+                cls.append('benchmark_on_other_dates')
+            nb = len(be)
+            bo = oracle(be, bidx)
+            beq = pd.DataFrame({'Equity': list(be)}, index=list(bidx))
             eq0 = pd.DataFrame({'Equity': list(e)}, index=list(idx))
             alloc = pd.DataFrame({'EQ:A': [1.0] * n}, index=list(idx))
             jb = q.JSONStatistics(eq0, alloc, benchmark_curve=beq, output_filename=tmp, periods=P).statistics
             sb, ss = jb['benchmark'], jb['strategy']
             if abs(float(sb['max_drawdown']) - bo['maxdd']) > 1e-9:
                 raise Violation('benchmark max drawdown %r, definition gives %r' % (float(sb['max_drawdown']), bo['maxdd']))
-            if not close(float(sb['cagr']), bo['cum_last'] ** (float(P) / n) - 1, 1e-9, 1e-6):
-                raise Violation('benchmark CAGR %r, definition gives %r' % (float(sb['cagr']), bo['cum_last'] ** (float(P) / n) - 1))
+            if not close(float(sb['cagr']), bo['cum_last'] ** (float(P) / nb) - 1, 1e-9, 1.0):
+                raise Violation('benchmark CAGR %r, definition over its own %d observations gives %r' % (
+                    float(sb['cagr']), nb, bo['cum_last'] ** (float(P) / nb) - 1))
+            if len(sb['equity_curve']) != nb:
+                raise Violation('benchmark section has %d observations, the benchmark curve %d' % (len(sb['equity_curve']), nb))
             for per, key in (('monthly', 'monthly_agg_returns'), ('yearly', 'yearly_agg_returns')):
                 got = dict(((tuple(k) if isinstance(k, (tuple, list)) else (k,)), float(v)) for k, v in sb[key])
                 for k, v in bo['agg'][per].items():
@@ -264,7 +284,7 @@ def run_case(case):
         c = case['scale']
         _, s3 = stats_for(q, [x * c for x in e], idx, tmp, P)
         for k in ('max_drawdown', 'cagr'):
-            if not close(float(s[k]), float(s3[k]), 1e-9, 1e-6):
+            if not close(float(s[k]), float(s3[k]), 1e-9, 1.0):
                 raise Violation('%s changes from %r to %r when equity is multiplied by %r' % (k, float(s[k]), float(s3[k]), c))
         if mx > 0 and sd >= 1e-6 * mx and not close(float(s['sharpe']), float(s3['sharpe']), 1e-6, 1e-6):
             raise Violation('Sharpe changes from %r to %r when equity is multiplied by %r' % (
@@ -311,11 +331,14 @@ def cases(draw):
     d0 = draw(st.one_of(st.dates(min_value=D.date(1995, 1, 1), max_value=D.date(2037, 1, 1)),
                         st.sampled_from([D.date(2020, 12, 21), D.date(2015, 12, 24), D.date(2026, 12, 28), D.date(1999, 12, 27)])))
     e0 = draw(st.one_of(gen.logu(10, 1e6), st.sampled_from([100.0, 1e6, 1e4])))
+    if shape == 'nearly_flat':
+        e0 = 2.5e6
     e = build_curve(draw(st.integers(0, 2 ** 31)), n, shape, e0)
     bench = None
     if draw(st.sampled_from([False, True])):
         bench = build_curve(draw(st.integers(0, 2 ** 31)), n, draw(st.sampled_from(SHAPES)), draw(st.sampled_from([100.0, 5e4])))
     return {'shape': shape, 'start': [d0.year, d0.month, d0.day], 'equity': e, 'benchmark': bench,
+            'benchmark_lead': draw(st.sampled_from([0, 0, 5, 40])) if bench else 0,
             'periods': draw(st.sampled_from([252, 252, 52, 12, 365])), 'pow2': draw(st.sampled_from([1, -3, 10, 4])),
             'scale': draw(st.sampled_from([3.7, 0.01, 1e3, 1.1, 0.37]))}
 
